@@ -40,7 +40,11 @@ import LinVerif.Util.Proto
 import LinVerif.Model.Pipeline
 import LinVerif.Model.BrokerMeta
 import LinVerif.Model.CompleteLock
+import LinVerif.Model.C19Deadline
+import LinVerif.Model.C19Either
+import LinVerif.Model.C19PlanExec
 import LinVerif.Generated.C19
+import LinVerif.Generated.C19b
 
 namespace LinVerif.Driver.C19
 open LinVerif LinVerif.Pipeline
@@ -58,8 +62,8 @@ def parseNode (w : String) : Option (Run × Bool × Outcome × Nat) :=
   match w.toList with
   | a :: o :: k =>
     let run? : Option Run :=
-      if a = 'S' then some .inline else if a = 'A' || a = 'Q' || a = 'Z' then some .pooled
-      else if a = 'X' || a = 'C' then some .rejected else none
+      if a = 'S' then some .inline else if a = 'A' || a = 'Q' || a = 'Z' || a = 'R' then some .pooled
+      else if a = 'X' || a = 'C' || a = 'r' then some .rejected else none
     let out? : Option (Bool × Outcome) :=
       if o = 'o' then some (false, .ok) else if o = 'e' then some (false, .error)
       else if o = 'p' then some (false, .panic) else if o = 'l' then some (true, .ok)
@@ -79,6 +83,61 @@ def parseTree (ws : List String) : Option Stage :=
   match r with
   | some [root] => some root
   | _ => none
+
+/-- like `parseNode`, with `E` = a pooled stage submitted with a done context and free queue capacity
+(`Submit`'s select may take either case) -/
+def parsePNode (w : String) : Option (PRun × Bool × Outcome × Nat) :=
+  match w.toList with
+  | 'E' :: rest =>
+    (parseNode (String.ofList ('A' :: rest))).map fun (_, pp, o, k) => (PRun.either, pp, o, k)
+  | _ => (parseNode w).map fun (r, pp, o, k) => (PRun.fixed r, pp, o, k)
+
+def parsePTree (ws : List String) : Option PStage :=
+  let r : Option (List PStage) := ws.foldr (fun w acc =>
+    match acc, parsePNode w with
+    | some stack, some (r, pp, o, k) =>
+      if stack.length < k then none else some (PStage.mk r pp o (stack.take k) :: stack.drop k)
+    | _, _ => none) (some [])
+  match r with
+  | some [root] => some root
+  | _ => none
+
+/-- plan-node tree of the `pexec` op: token = <i|n><o|f|e><#children> (i: built with
+NewPlanNodeWithIgnore; o ok / f not found / e another error); ids = preorder positions -/
+def parsePlanTree (ws : List String) : Option C19PlanExec.PNode :=
+  let n := ws.length
+  let r : Option (List C19PlanExec.PNode × Nat) := ws.foldr (fun w acc =>
+    match acc, w.toList with
+    | some (stack, idx), g :: o :: k =>
+      let ig? : Option Bool := if g = 'i' then some true else if g = 'n' then some false else none
+      let res? : Option C19PlanExec.OpRes :=
+        if o = 'o' then some .ok else if o = 'f' then some .notFound else if o = 'e' then some .err else none
+      match ig?, res?, (String.ofList k).toNat? with
+      | some ig, some res, some k =>
+        if stack.length < k then none
+        else some (C19PlanExec.PNode.mk (idx - 1) ig res (stack.take k) :: stack.drop k, idx - 1)
+      | _, _, _ => none
+    | _, _ => none) (some ([], n))
+  match r with
+  | some ([root], _) => some root
+  | _ => none
+
+def parseDlEv (w : String) : Option C19Deadline.Ev :=
+  if w = "dl" then some .deadline else if w = "wd" then some (.wake true) else if w = "wt" then some (.wake false)
+  else if w = "un" then some .unregister
+  else
+    let body := (w.drop 2).toString
+    let resp? : Option BrokerMeta.Resp :=
+      if body = "nf" then some (.ok []) else if body = "err" then some .err else if body = "bad" then some .bad
+      else if body.startsWith "ok:" then
+        let vs := (body.drop 3).toString
+        some (.ok (if vs = "" then [] else vs.splitOn ","))
+      else none
+    match resp? with
+    | some r =>
+      if w.startsWith "r:" then some (.resp r true) else if w.startsWith "x:" then some (.resp r false)
+      else if w.startsWith "f:" then some (.inflight r) else none
+    | none => none
 
 def atGate (t : Thread) : Bool :=
   match t.code with
@@ -237,6 +296,46 @@ def step (st : St) (ws : List String) : St × String :=
       else
         let vs := (f.results.toArray.qsort (· < ·)).toList.eraseDups
         (st, "ok " ++ ",".intercalate vs)
+    | none => (st, "bad-op")
+  | "bdl" :: n :: sf :: evs =>
+    -- a root metadata request with a deadline: the script of events as the harness observed them; an event
+    -- the model does not allow at that point answers `not-allowed`
+    match n.toNat?, (if sf = "0" then some false else if sf = "1" then some true else none), evs.mapM parseDlEv with
+    | some n, some sf, some es =>
+      match C19Deadline.run Generated.C19.metadataToleratesErrMsg (C19Deadline.init n sf) es with
+      | some q =>
+        let ret := match q.returned with
+          | [] => "-"
+          | [.ok vs] => "ok " ++ ",".intercalate ((vs.toArray.qsort (· < ·)).toList.eraseDups)
+          | [.err] => "err"
+          | [.timeout] => "timeout"
+          | _ => "many"
+        (st, s!"ret={ret} dropped={q.dropped}")
+      | none => (st, "not-allowed")
+    | _, _, _ => (st, "bad-op")
+  | "leafdl" :: kind :: rest =>
+    -- a leaf request whose context is done while stages run: `E` stages may be rejected or run; the
+    -- last word is the response the harness observed; allowed = the responses of SOME resolution (a
+    -- group-by request's SendResponse(nil) may in addition meet the done context in its collect wait)
+    match rest.reverse with
+    | obs :: toksR =>
+      match parsePTree toksR.reverse, (if kind = "data" then some false else if kind = "data-group-by" then some true else none),
+            (if obs = "nil" then some false else if obs = "err" then some true else none) with
+      | some p, some groupBy, some o =>
+        let outs := p.resolutions.map fun root => runResponses reqCfg false false (runAll fuel (Pipeline.init root))
+        let allowed := outs.any fun rs => rs = [o] || (groupBy && o && rs = [false])
+        if outs.all (fun rs => rs.length = 1) && allowed then (st, showResponses [o])
+        else (st, "not-allowed")
+      | _, _, _ => (st, "bad-op")
+    | [] => (st, "bad-op")
+  | "pexec" :: toks =>
+    match parsePlanTree toks with
+    | some root =>
+      let (ran, e) := C19PlanExec.exec ⟨Generated.C19b.toleranceAsksNode, Generated.C19b.toleranceAsksNotFound⟩ root
+      let res := match e with
+        | none => "nil"
+        | some m => s!"err:{m.id}"
+      (st, s!"res={res} ran={",".intercalate (ran.map (fun m => toString m.id))}")
     | none => (st, "bad-op")
   | ["leaf-new"] => ({ st with leaf := Leaf.init }, "ok")
   | ["leaf-send", e] =>
